@@ -95,6 +95,7 @@ func Opts(methods []string) *session.Opts {
 			HeartbeatBuilder:     fixgen.Heartbeat{}.New(),
 			TestRequestBuilder:   fixgen.TestRequest{}.New(),
 			ResendRequestBuilder: fixgen.ResendRequest{}.New(),
+			SequenceResetBuilder: fixgen.SequenceReset{}.New(),
 		},
 		Tags:                    &messages.Tags{MsgType: 35, MsgSeqNum: 34, HeartBtInt: 108, EncryptedMethod: 98},
 		AllowedEncryptedMethods: allowed,
